@@ -787,6 +787,37 @@ def rule_duplicates(chk):
     chk.decide(bool(q) and bool(sc) and g.dominates(sc[0], q[0]) and [compact(a) for a in g.nodes[sc[0]].ast.value.args] == ['src_index', 'dst_index'],
                'context-wiring', 'uncached-entry-sets-context', node=f, file=NB, func='NNPSBase.get_nearest_particles_no_cache',
                detail_bad='the query runs without set_context(src_index, dst_index) first', detail_ok='set_context(src_index, dst_index) dominates the query')
+    # which reset: an output array may be a *view* into a neighbour-cache buffer (the cached entry hands out views); c_reset() detaches it, `length = 0` does not - the search
+    # would then append into the cache's storage and later cached queries return those entries.  `length = 0` is therefore only for the caller that says it pre-allocated.
+    from verif_static import paths as PT
+    n_over = 0
+    for p_file in sorted(glob.glob(os.path.join(REPO, 'pysph/base/*_nnps.pyx'))) + [os.path.join(REPO, NB)]:
+        if 'gpu' in p_file:
+            continue
+        rel_ = os.path.relpath(p_file, REPO)
+        for cls_ in M.classes(M.cy(rel_)):
+            fo = M.methods(cls_).get('get_nearest_particles_no_cache')
+            if fo is None:
+                continue
+            n_over += 1
+            params = M.arg_names(fo)
+            outp = params[4] if len(params) > 4 else 'nbrs'
+            flag = params[5] if len(params) > 5 else 'prealloc'
+            bad_ = []
+            for p_ in PT.enumerate_paths(M.docstring_stripped(fo.body)):
+                qs = [i for i, c, cal, env in PT.calls_on(p_) if cal == 'self.find_nearest_neighbors']
+                if not qs:
+                    continue
+                detached = any(cal in (outp + '.c_reset', outp + '.reset') and i < qs[0] for i, c, cal, env in PT.calls_on(p_))
+                trunc = any(e.kind == 'stmt' and isinstance(e.node, ast.Assign) and compact(e.node) == outp + '.length=0' for e in p_[:qs[0]])
+                pre = PT.took(p_, True, flag) is not None
+                if not detached and not (trunc and pre):
+                    bad_.append('truncated only (length = 0)' if trunc else 'not emptied')
+            chk.decide(not bad_, 'no-duplicates', '%s:uncached-entry-detaches-a-view' % cls_.name, node=fo, file=rel_, func='%s.get_nearest_particles_no_cache' % cls_.name,
+                       detail_bad='on a path where the caller did not say it pre-allocated, the output array is %s before the search: an array that is still a view of a neighbour-cache '
+                                  'buffer (it was filled by a cached query) is then appended to in place, and the cache returns these entries for the particle it was filled for' % bad_[0] if bad_ else '',
+                       detail_ok='c_reset() unless the caller pre-allocated')
+    chk.floor('uncached query entry points', n_over, 2)
     f2 = M.find_func(nn, 'get_nearest_neighbors')
     g2 = C.build_cfg(f2)
     did, out = f2.args.args[1].arg, f2.args.args[2].arg
@@ -1917,6 +1948,18 @@ def rule_field_widths(chk):
                         ok = any(isinstance(x, ast.Constant) and isinstance(x.value, (int, float)) and x.value >= 1 for x in arg.args)
                     if isinstance(arg, ast.Constant) and isinstance(arg.value, (int, float)) and arg.value >= 1:
                         ok = True
+                    # the width is 1 + floor(log2(X)) (the conversion to an unsigned truncates): enough bits for every value 0..X.  X itself must fit: the 27-cell stencil also builds
+                    # keys for cell index X (one past the last cell); ceil(log2(X)) is a bit short for X = 1, 2 and every power of two
+                    v_ = a.value
+                    while isinstance(v_, ast.Call) and compact(v_.func) in ('__cast__', 'cast') and v_.args:
+                        v_ = v_.args[-1]
+                    shape = isinstance(v_, ast.BinOp) and isinstance(v_.op, ast.Add) and \
+                        ((isinstance(v_.left, ast.Constant) and v_.left.value == 1 and v_.right is c) or (isinstance(v_.right, ast.Constant) and v_.right.value == 1 and v_.left is c))
+                    n += 1
+                    chk.decide(shape, 'key-fields-hold-their-values', '%s.%s:%s:one-more-than-floor-log2' % (cls.name, mname, compact(a.targets[0])), node=a, file=rel, func='%s.%s' % (cls.name, mname),
+                               detail_bad='%s = %s: the number of bits is not 1 + floor(log2(X)); with ceil(log2(X)) a range of X = 1 or 2 cells gets 0 or 1 bits although the neighbour stencil '
+                                          'also builds keys for cell index X, which then aliases a cell that is itself in the stencil: duplicates' % (compact(a.targets[0]), compact(a.value)),
+                               detail_ok='1 + floor(log2(X)) bits')
                     n += 1
                     chk.decide(ok, 'key-fields-hold-their-values', '%s.%s:%s' % (cls.name, mname, compact(a.targets[0])), node=a, file=rel, func='%s.%s' % (cls.name, mname),
                                detail_bad='%s = ... log2(%s) ...: the argument is 0 for a point set without extent along that axis (all particles in one plane or on one line) or for an '
